@@ -22,7 +22,7 @@ import (
 
 func init() {
 	register(&Prop{ID: "C07", Run: runC07, MinNontrivial: 500,
-		Rule:        "cases built by a party knowing only the SP certificate: plaintext in {IdP-signed assertion (replayed), unsigned forged, attacker-signed with own certificate, attacker-signed with the trusted certificate in KeyInfo, non-assertion element, a whole Response, garbage} x 5 data algorithms x {OAEP-MGF1P, OAEP-1.1, PKCS#1 v1.5} x placement {direct child, inside Extensions / Advice / arbitrary wrapper, nested in another assertion} x recipient certificate in EncryptedKey {none, the SP's, another, bad base64} x enclosing Response {unsigned, attacker-signed}; plus a configuration class: ValidateEncryptionCert on/off x SP clock {inside, before, after the SP certificate window} x SP certificate {valid, empty list, empty bytes, junk DER} with a genuinely IdP-signed plaintext; oracle: accepted => every returned assertion equals an IdP-signed record, the encrypted element was a direct child, the named recipient was none or the SP's, and (option on => certificate parses and the injected now is inside its window); the fully valid configuration must accept; non-trivial = decryption logic reached; distinct by parameter tuple; tls.Certificate.Leaf absent / consistent / contradicting the certificate list; encrypted assertions carrying two EncryptedKeys (embedded for a foreign recipient, detached for the SP); EncryptedKey naming another certificate over the SP key or an EC certificate; retired pair in the field with the message encrypted to it; SP key stores holding a certificate bundle [leaf, CA] (validity and recipient naming); clocks a nanosecond around the certificate bounds; fixture of a foreign certificate sharing four SHA-1 bytes with the SP certificate",
+		Rule:        "cases built by a party knowing only the SP certificate: plaintext in {IdP-signed assertion (replayed), unsigned forged, attacker-signed with own certificate, attacker-signed with the trusted certificate in KeyInfo, non-assertion element, a whole Response, garbage} x 5 data algorithms x {OAEP-MGF1P, OAEP-1.1, PKCS#1 v1.5} x placement {direct child, inside Extensions / Advice / arbitrary wrapper, nested in another assertion} x recipient certificate in EncryptedKey {none, the SP's, another, bad base64} x enclosing Response {unsigned, attacker-signed}; plus a configuration class: ValidateEncryptionCert on/off x SP clock {inside, before, after the SP certificate window} x SP certificate {valid, empty list, empty bytes, junk DER} with a genuinely IdP-signed plaintext; oracle: accepted => every returned assertion equals an IdP-signed record, the encrypted element was a direct child, the named recipient was none or the SP's, and (option on => certificate parses and the injected now is inside its window); the fully valid configuration must accept; non-trivial = decryption logic reached; distinct by parameter tuple; tls.Certificate.Leaf absent / consistent / contradicting the certificate list; encrypted assertions carrying two EncryptedKeys (embedded for a foreign recipient, detached for the SP); EncryptedKey naming another certificate over the SP key or an EC certificate; retired pair in the field with the message encrypted to it; SP key stores holding a certificate bundle [leaf, CA] (validity and recipient naming); clocks a nanosecond around the certificate bounds; fixture of a foreign certificate sharing four SHA-1 bytes with the SP certificate; EncryptedKey KeyInfo naming the SP by subject name / issuer and serial / key identifier / key name / key value next to a foreign certificate; several X509Certificate elements in one X509Data; an opaque crypto.Decrypter key through the setter; SP certificates valid for 400 - 7000 years",
 		Assumptions: []string{"the SP certificate window's exact end instants are not probed"}})
 }
 
@@ -62,6 +62,9 @@ func runC07(c *mon.Ctx) {
 		pk := plaintexts[k%len(plaintexts)]
 		place := placements[(k/len(plaintexts))%len(placements)]
 		rc := recips[r.IntN(len(recips))]
+		if pk == "idp-signed" && place == "direct" && r.IntN(3) == 0 {
+			rc = "sp" // the combination in which only the recipient naming decides
+		}
 		spec := &sim.EncSpec{DataAlg: pick(r, sim.DataAlgs), KeyAlg: pick(r, keyAlgs), To: w.SPEnc, Detached: r.IntN(3) == 0, Prefixed: r.IntN(2) == 0, Filler: r.IntN(3)}
 		switch rc {
 		case "sp":
@@ -93,7 +96,20 @@ func runC07(c *mon.Ctx) {
 			}
 			rc += "+second-key-for-sp"
 		}
-		if r.IntN(2) == 0 {
+		if r.IntN(2) == 0 && spec.RecipRaw == nil {
+			// several certificates named in one X509Data: the SP's own and somebody else's, in either order (or two
+			// foreign ones). Naming a certificate that is not the SP's is naming a different recipient.
+			other := sim.Wide(sim.K(pick(r, []string{"spenc2", "idp1", "atk1"})), base)
+			switch rc {
+			case "sp":
+				spec.RecipientMore, spec.MoreFirst = []*sim.Cert{other}, r.IntN(2) == 0
+				rc = map[bool]string{true: "another-listed-before-the-sp-certificate", false: "another-listed-after-the-sp-certificate"}[spec.MoreFirst]
+			case "another":
+				spec.RecipientMore, spec.MoreFirst = []*sim.Cert{other}, r.IntN(2) == 0
+				rc = "another+one-more"
+			}
+		}
+		if r.IntN(2) == 0 && spec.RecipientMore == nil {
 			// the SP's certificate identified by the other means KeyInfo offers (subject name, issuer and serial, key
 			// identifier, key name, key value), next to whatever certificate is named: a named certificate that is not
 			// the SP's stays a different recipient
@@ -209,14 +225,14 @@ func runC07(c *mon.Ctx) {
 			why := "plaintext " + pk
 			if place != "direct" {
 				why = "placement " + place
-			} else if strings.HasPrefix(rc, "another") || strings.HasPrefix(rc, "bad-base64") || rc == "bundle-ca" {
+			} else if strings.HasPrefix(rc, "another") || strings.HasPrefix(rc, "bad-base64") || strings.HasPrefix(rc, "bundle-ca") {
 				why = "recipient " + rc
 			}
 			who := ""
 			if len(res.Assertions) > 0 && res.Assertions[0].Subject != nil && res.Assertions[0].Subject.NameID != nil {
 				who = res.Assertions[0].Subject.NameID.Value
 			}
-			cs.Violation("encrypted-untrusted-accepted:"+why, "accepted (%s): %d assertion(s), first NameID %q", why, len(res.Assertions), who)
+			cs.Violation("encrypted-untrusted-accepted:"+strings.ReplaceAll(why, " ", "-"), "accepted (%s): %d assertion(s), first NameID %q", why, len(res.Assertions), who)
 		case verr != nil && shouldAccept && opaque:
 			cs.Outcome("rejected-with-opaque-key")
 		case verr != nil && shouldAccept:
@@ -283,6 +299,73 @@ func runC07(c *mon.Ctx) {
 			}
 			cs.Outcome("refused")
 		}()
+	}
+
+	// ---- SP certificates that live for centuries (longer than a time.Duration can express) ----
+	{
+		k := 0
+		for _, years := range []int{293, 400, 1000, 1900, 5000} {
+			for _, forward := range []bool{false, true} {
+				cnb, cna := base.AddDate(-years, 0, 0), base
+				if forward {
+					cnb, cna = base, base.AddDate(years, 0, 0)
+				}
+				if cnb.Year() < 1 || cna.Year() > 9000 {
+					continue
+				}
+				cert := sim.Mint(sim.K("spenc"), cnb, cna, 27)
+				for _, clk := range []struct {
+					name   string
+					t      time.Time
+					inside bool
+				}{{"a-second-after-the-end", cna.Add(time.Second), false}, {"a-year-after-the-end", cna.AddDate(1, 0, 0), false}, {"fifty-years-after-the-end", cna.AddDate(50, 0, 0), false},
+					{"a-second-before-the-start", cnb.Add(-time.Second), false}, {"inside", cnb.AddDate(years/2, 0, 0), true}, {"a-second-before-the-end", cna.Add(-time.Second), true}} {
+					for _, opt := range []bool{true, false} {
+						k++
+						cs := c.Begin("long-lived-sp-certificate", k)
+						if cs == nil {
+							continue
+						}
+						if clk.t.Year() < 12 || clk.t.Year() > 9900 {
+							cs.Outcome("clock-outside-the-calendar")
+							continue
+						}
+						wc := NewWorld(clk.t)
+						idp := wc.IdP[2]
+						rec := sim.GenuineResponse(wc.Env, 1)
+						rec.Assertions[0].Sig = sim.DefaultSig(idp.Key, idp)
+						rec.Assertions[0].Enc = &sim.EncSpec{DataAlg: sim.AES128GCM, KeyAlg: sim.RSAOAEP, To: cert}
+						doc, err := sim.BuildResponse(rec, sim.PlainStyle())
+						if err != nil {
+							cs.Inconclusive("simulator-error")
+							continue
+						}
+						sp, _, _ := NewSP(clk.t, idp)
+						sp.ValidateEncryptionCert = opt
+						if k%2 == 0 {
+							sp.SPKeyStore = &RSAKeyStore{C: cert}
+						} else {
+							sp.SetSPKeyStore(&saml2.KeyStore{Signer: cert.Key.Signer, Cert: cert.DER})
+						}
+						cs.Desc("certificate valid %d years (%s .. %s), clock %s, option %v", years, cnb.Format("2006-01-02"), cna.Format("2006-01-02"), clk.name, opt)
+						cs.Input([]byte(doc))
+						cs.Nontrivial(cs.Description())
+						var verr error
+						pv, stack := mon.Guard(func() { _, verr = sp.ValidateEncodedResponse(sim.Encode(doc, sim.RawLevel)) })
+						switch {
+						case pv != nil:
+							cs.Violation("panic", "panic: %v\n%s", pv, trunc(stack, 1000))
+						case verr == nil && opt && !clk.inside:
+							cs.Violation("decrypted-despite-cert:long-lived:outside", "ValidateEncryptionCert is on, the SP certificate (valid for %d years) is outside its validity at the clock (%s), yet the encrypted assertion was accepted", years, clk.name)
+						case verr != nil && (!opt || clk.inside):
+							cs.Violation("valid-config-refused", "SP certificate valid for %d years, option %v, clock %s, but rejected: %v", years, opt, clk.name, verr)
+						default:
+							cs.Outcome(fmt.Sprintf("accepted=%v", verr == nil))
+						}
+					}
+				}
+			}
+		}
 	}
 
 	// ---- SP configuration: ValidateEncryptionCert x clock x certificate ----
